@@ -4,41 +4,71 @@ pub use methods::dispatch as pow;
 
 #[dispatch]
 mod methods {
-    use crate::CelValue;
+    use crate::{CelResult, CelValue};
 
-    fn pow(n1: i64, n2: i64) -> i64 {
-        n1.pow(n2 as u32)
+    fn pow(n1: i64, n2: i64) -> CelResult<i64> {
+        internal::checked(n1.checked_pow(internal::exponent(n2)?))
     }
 
-    fn pow(n1: i64, n2: u64) -> i64 {
-        n1.pow(n2 as u32)
+    fn pow(n1: i64, n2: u64) -> CelResult<i64> {
+        internal::checked(n1.checked_pow(internal::exponent(n2)?))
     }
 
-    fn pow(n1: i64, n2: f64) -> i64 {
-        n1.pow(n2 as u32)
+    fn pow(n1: i64, n2: f64) -> CelResult<i64> {
+        internal::checked(n1.checked_pow(internal::float_exponent(n2)?))
     }
 
-    fn pow(n1: u64, n2: i64) -> u64 {
-        n1.pow(n2 as u32)
+    fn pow(n1: u64, n2: i64) -> CelResult<u64> {
+        internal::checked(n1.checked_pow(internal::exponent(n2)?))
     }
 
-    fn pow(n1: u64, n2: u64) -> u64 {
-        n1.pow(n2 as u32)
+    fn pow(n1: u64, n2: u64) -> CelResult<u64> {
+        internal::checked(n1.checked_pow(internal::exponent(n2)?))
     }
 
-    fn pow(n1: u64, n2: f64) -> u64 {
-        n1.pow(n2 as u32)
+    fn pow(n1: u64, n2: f64) -> CelResult<u64> {
+        internal::checked(n1.checked_pow(internal::float_exponent(n2)?))
     }
 
     fn pow(n1: f64, n2: i64) -> f64 {
-        n1.powi(n2 as i32)
+        match i32::try_from(n2) {
+            Ok(n2) => n1.powi(n2),
+            Err(_) => n1.powf(n2 as f64),
+        }
     }
 
     fn pow(n1: f64, n2: u64) -> f64 {
-        n1.powi(n2 as i32)
+        match i32::try_from(n2) {
+            Ok(n2) => n1.powi(n2),
+            Err(_) => n1.powf(n2 as f64),
+        }
     }
 
     fn pow(n1: f64, n2: f64) -> f64 {
         n1.powf(n2)
+    }
+
+    mod internal {
+        use crate::{CelError, CelResult};
+
+        // An integer power only exists for an exponent that is a non negative integer.
+        pub fn exponent<T: TryInto<u32>>(n: T) -> CelResult<u32> {
+            n.try_into()
+                .map_err(|_| CelError::value("pow() exponent out of range for an integer base"))
+        }
+
+        pub fn float_exponent(n: f64) -> CelResult<u32> {
+            if n >= 0.0 && n <= u32::MAX as f64 && n.fract() == 0.0 {
+                Ok(n as u32)
+            } else {
+                Err(CelError::value(
+                    "pow() exponent out of range for an integer base",
+                ))
+            }
+        }
+
+        pub fn checked<T>(val: Option<T>) -> CelResult<T> {
+            val.ok_or_else(|| CelError::value("Integer overflow"))
+        }
     }
 }
